@@ -163,7 +163,8 @@ def generate(seed, tier, prop):
     kind = rng.choice(["control", "control2", "timeseries", "timeseries", "control_recover"])
     if kind == "control_recover" and not any(c["type"] == "p2g" for c in couplings):
         kind = "control"
-    late = (kind == "control_recover") or (kind == "timeseries" and not fault_free and rng.random() < 0.5)
+    per_net_cod = kind in ("control", "control2") and rng.random() < 0.4
+    late = (kind == "control_recover") or (kind == "timeseries" and not fault_free and rng.random() < 0.5) or per_net_cod
     if late:
         # no initial runs: a member can then only diverge AFTER the coupling controllers have acted, so that
         # whatever they keep across runs / steps (flags, cached values) meets an aborted control loop
@@ -200,7 +201,7 @@ def generate(seed, tier, prop):
            "kw": {"iter": rng.choice([30, 60]), "use_numba": rng.random() < 0.5},
            # per-net continue_on_divergence handed in through ctrl_variables (control runs): a diverging member is
            # then swallowed by its own evaluation and only the combined convergence flag can report it
-           "per_net_cod": kind in ("control", "control2") and rng.random() < 0.4}
+           "per_net_cod": per_net_cod}
     if kind in ("control", "control2") and not fault_free and rng.random() < 0.35:
         # infeasible member: a load the power net cannot serve / a demand the gas net cannot serve
         if rng.random() < 0.5 and power["loads"]:
@@ -324,9 +325,19 @@ def build_world(trace, order_override=None):
     ds = None
     if trace["profiles"]:
         ds = SimData(pd.DataFrame({k: list(v)[:T] for k, v in sorted(trace["profiles"].items())}, index=list(range(T))))
+    def _exists(nn, tbl, idxs):
+        return nn in nets and tbl in nets[nn] and all(i in nets[nn][tbl].index for i in idxs)
     for ci, c in enumerate(trace["couplings"]):
         od = c["order"] if order_override is None else order_override[ci]
         common = dict(order=od, level=c["level"], initial_run=c["initial_run"])
+        # (shrunk traces: a coupling whose elements were removed would make pandas' .at create rows with NaN
+        # junctions, which the numba kernels index without bounds check -> skip it)
+        if c["type"] == "p2g" and not (_exists("power", "load", c["power_idx"]) and _exists(c["gas_net"], "source", c["gas_idx"])):
+            continue
+        if c["type"] in ("g2p", "g2p_led") and not (_exists("power", "sgen", c["power_idx"]) and _exists(c["gas_net"], "sink", c["gas_idx"])):
+            continue
+        if c["type"] == "g2g" and not (_exists(c["from_net"], "sink", c["idx_from"]) and _exists(c["to_net"], "source", c["idx_to"])):
+            continue
         try:
             if c["type"] == "p2g":
                 P2GControlMultiEnergy(mn, _idx(c, "power_idx"), _idx(c, "gas_idx"), c["eff"], name_power_net="power",
